@@ -159,6 +159,10 @@ def check_case(ctx, case):
         if XR:
             ctx.count("injected_pools_with_more_rows_than_simulations")
             a = numpy.vstack([a] + [a[:1]] * XR)
+        if case.get("numbers_as") == "readonly":
+            a.setflags(write=False)         # the caller's numbers, not to be written to
+        elif case.get("numbers_as") == "fortran":
+            a = numpy.asfortranarray(a)
         return a
 
     # ------------------------------------------------ (a) injected path, Poisson
@@ -479,6 +483,8 @@ def cases(draw, max_events=50):
     c["seed"] = draw(SEEDS)
     if draw(st.integers(0, 2)) == 0:
         c["np_seed"] = True
+    if draw(st.integers(0, 3)) == 0:
+        c["numbers_as"] = draw(st.sampled_from(["readonly", "fortran"]))
     c["k"] = "gridded"
     return c
 
